@@ -82,6 +82,31 @@ Proof.
   split; [exact Hv|]. exists kicker, co, rk, vr. repeat split; assumption.
 Qed.
 
+(* a KICK line that selects nobody (absent channel, sender not on it, sender below half-operator, no named member its rank may
+   remove), as a whole step: the state is unchanged, nobody is closed, only the sender hears anything *)
+Theorem kick_refused_step w i l msg ch vs comment c nick w' o cl : Inv w -> step cfg verify w i (EvLine l) = Ok (w', o, cl) ->
+  conns w !! i = Some c -> c_auth c = true -> c_nick c = Some nick -> tokenize l = inl msg ->
+  command_of_message msg = inl (KICK ch vs comment) -> (kick_decide (sh w) nick (client_name c) ch vs).1 = [] ->
+  sh w' = sh w /\ conns w' = conns w /\ Forall (fun x => x.1 = i) o.
+Proof.
+  intros I H Hc A Hn Ht Hcmd Hd.
+  assert (process_line cfg verify i (sh w) c l = process_kick cfg i (sh w) c ch vs comment) as El.
+  { unfold process_line. rewrite Ht, Hcmd, A. reflexivity. }
+  destruct (process_line cfg verify i (sh w) c l) as [r|] eqn:Hr.
+  2:{ exfalso. unfold step in H. cbn [step_raw] in H. rewrite Hc, Hr in H. discriminate H. }
+  symmetry in El.
+  destruct (process_kick_nobody cfg i (sh w) c ch vs comment r nick Hn Hd El) as [Es [Ec Ho]].
+  destruct (process_kick_state cfg i (sh w) c ch vs comment r nick Hn El) as [_ [_ Q]].
+  assert (keeps (sh w) (h_sh r)) as Kp by (rewrite Es; apply keeps_refl).
+  destruct (plain_line_step w i l c r w' o cl I H Hc Hr Q Kp) as [E1 E2].
+  split; [congruence|]. split; [rewrite E2, Ec; apply insert_id; exact Hc|].
+  (* the step's output is the handler's: nothing is delivered for a KILL either *)
+  unfold step in H. cbn [step_raw] in H. rewrite Hc, Hr in H. cbn [rbind] in H. rewrite Q in H. cbn [rbind] in H.
+  rewrite deliver_nil in H.
+  - cbn [rbind] in H. injection H as _ Eo _. rewrite <- Eo, app_nil_r. exact Ho.
+  - cbn [sh]. intros n u0 Hu0. destruct Kp as [Kp _]. destruct (Kp n u0 Hu0) as [u1 [Hu1 [_ [_ Hk]]]]. rewrite Hk. eapply (iw_nk w I); eauto.
+Qed.
+
 (* every event: a user who stays connected leaves a channel only by its own PART line or by a KICK line whose sender holds the
    rank the removal needs *)
 Theorem removed_only_by_part_or_ranked_kick w i e w' o cl n u' n0 u ch : Inv w -> step cfg verify w i e = Ok (w', o, cl) ->
